@@ -8,6 +8,7 @@ META = {
         "Static analysis over rustc MIR. Decides: (1) the scalar decode table, exhaustive over its arms: for every (DW_ATE encoding, byte size) arm of ValueParser::parse_scalar the Rust type the bytes are reinterpreted as has exactly that size, the right signedness / float-ness, and is wrapped in the same-named SupportedScalar variant; "
         "(2) every version_switch! table (rustc-version dependent layouts of TLS, Vec capacity, fmt internals, tokio types) is ordered, its arms are pairwise disjoint and contiguous, ends open, and where its result is unwrapped it covers the whole supported rustc range read from SUPPORTED_RUSTC; "
         "(3) sibling coverage: try_as_number and Display for SupportedScalar handle every numeric variant with its own payload."
+        " Also: hashbrown full-bucket predicate (top bit of the control byte, polarity through complements), VecDeque ring split, B-tree in-order walk (one edge right, then leftmost at every level), discriminant lookup agrees with sign-extended DW_AT_discr_value keys."
     ),
     "not_decided": "equality of any shown value with the program's value; per-shape correctness of the collection decoders (value-level, needs execution)",
     "assumptions": ["size_of for Rust primitive types on x86-64"],
